@@ -154,6 +154,7 @@ void bn_div_rem(bn_t c, bn_t d, const bn_t a, const bn_t b) {
 void bn_div_dig(bn_t c, const bn_t a, dig_t b) {
 	bn_t q;
 	dig_t r;
+	int neg;
 
 	bn_null(q);
 
@@ -172,10 +173,15 @@ void bn_div_dig(bn_t c, const bn_t a, dig_t b) {
 	RLC_TRY {
 		bn_new(q);
 
+		neg = (bn_sign(a) == RLC_NEG);
 		bn_copy(q, a);
 		bn_div1_low(q->dp, &r, (const dig_t *)a->dp, b, a->used);
 		if (c != NULL) {
 			bn_copy(c, q);
+			/* Round towards minus infinity. */
+			if (neg && r != 0) {
+				bn_sub_dig(c, c, 1);
+			}
 		}
 	}
 	RLC_CATCH_ANY {
@@ -189,6 +195,7 @@ void bn_div_dig(bn_t c, const bn_t a, dig_t b) {
 void bn_div_rem_dig(bn_t c, dig_t *d, const bn_t a, dig_t b) {
 	bn_t q;
 	dig_t r;
+	int neg;
 
 	bn_null(q);
 
@@ -210,15 +217,20 @@ void bn_div_rem_dig(bn_t c, dig_t *d, const bn_t a, dig_t b) {
 	RLC_TRY {
 		bn_new(q);
 
+		neg = (bn_sign(a) == RLC_NEG);
 		bn_copy(q, a);
 		bn_div1_low(q->dp, &r, (const dig_t *)a->dp, b, a->used);
 
 		if (c != NULL) {
 			bn_copy(c, q);
+			/* Round towards minus infinity. */
+			if (neg && r != 0) {
+				bn_sub_dig(c, c, 1);
+			}
 		}
 
 		if (d != NULL) {
-			if (bn_sign(a) == RLC_NEG) {
+			if (neg && r != 0) {
 				*d = b - r;
 			} else {
 				*d = r;
